@@ -255,3 +255,222 @@ Proof.
   apply IH. exact Hp.
 Qed.
 End Congruence.
+
+(* ------------------------------------------------------------------ the two instances *)
+Lemma kat_fields_refl : forall a, kat_fields_eq a a.
+Proof. intros a. repeat split. Qed.
+
+Lemma F2k_hd : forall (R : node -> node -> Prop) g g', R dnode dnode -> Forall2 R g g' -> R (hd dnode g) (hd dnode g').
+Proof. intros R g g' Hd H. destruct H; cbn; auto. Qed.
+
+Lemma existsb_oov_eq : forall (R : node -> node -> Prop), (forall a b, R a b -> kat_fields_eq a b) ->
+  forall g g', Forall2 R g g' -> existsb oov g = existsb oov g'.
+Proof.
+  intros R HR g g' H. induction H as [|a b g g' Hab _ IH]; cbn [existsb]; [reflexivity|].
+  destruct (HR _ _ Hab) as (_ & _ & _ & _ & _ & Ho & _). rewrite Ho, IH. reflexivity.
+Qed.
+
+Lemma merged_oov_kat : forall g g' pid, Forall2 kat_fields_eq g g' -> kat_fields_eq (merged_oov g pid) (merged_oov g' pid).
+Proof.
+  intros g g' pid H.
+  pose proof (F2_hd kat_fields_eq (kat_fields_refl dnode) g g' H) as Hh. pose proof (F2_last kat_fields_eq (kat_fields_refl dnode) g g' H) as Hl.
+  destruct Hh as (h1 & _ & h3 & _ & _ & _ & _ & h8). destruct Hl as (_ & l2 & _ & l4 & _).
+  assert (Hs : map surf g = map surf g') by (apply (F2_map_eq kat_fields_eq); [intros a b (_ & _ & _ & _ & E & _); exact E|exact H]).
+  unfold merged_oov, kat_fields_eq. cbn [nb ne bb be surf oov cats cat0].
+  rewrite h1, h3, l2, l4, Hs, h8, (and_cats_eq kat_fields_eq (fun a b E => E) g g' H),
+          (existsb_oov_eq kat_fields_eq (fun a b E => E) g g' H). repeat split.
+Qed.
+
+Lemma num_fields_kat : forall a b, num_fields_eq a b -> kat_fields_eq a b.
+Proof. intros a b [H _]. exact H. Qed.
+Lemma num_fields_refl : forall a, num_fields_eq a a.
+Proof. intros a. repeat split. Qed.
+
+Lemma F2_num_kat : forall g g', Forall2 num_fields_eq g g' -> Forall2 kat_fields_eq g g'.
+Proof. intros g g' H. induction H; constructor; [apply num_fields_kat|]; assumption. Qed.
+
+Lemma merged_oov_num : forall g g' pid, Forall2 num_fields_eq g g' -> num_fields_eq (merged_oov g pid) (merged_oov g' pid).
+Proof.
+  intros g g' pid H. split; [apply merged_oov_kat, F2_num_kat; exact H|].
+  assert (Hs : map surf g = map surf g').
+  { apply (F2_map_eq num_fields_eq); [intros a b ((_ & _ & _ & _ & E & _) & _); exact E|exact H]. }
+  unfold merged_oov. cbn [norm pos]. rewrite Hs. split; reflexivity.
+Qed.
+
+Lemma merged_numeric_num : forall g g' nf, Forall2 num_fields_eq g g' -> num_fields_eq (merged_numeric g nf) (merged_numeric g' nf).
+Proof.
+  intros g g' nf H.
+  pose proof (F2_hd num_fields_eq (num_fields_refl dnode) g g' H) as Hh. pose proof (F2_last num_fields_eq (num_fields_refl dnode) g g' H) as Hl.
+  destruct Hh as ((h1 & _ & h3 & _ & _ & _ & _ & h8) & _ & hp). destruct Hl as ((_ & l2 & _ & l4 & _) & _).
+  assert (Hs : map surf g = map surf g').
+  { apply (F2_map_eq num_fields_eq); [intros a b ((_ & _ & _ & _ & E & _) & _); exact E|exact H]. }
+  assert (Hn : map norm g = map norm g').
+  { apply (F2_map_eq num_fields_eq); [intros a b (_ & E & _); exact E|exact H]. }
+  unfold merged_numeric, num_fields_eq, kat_fields_eq. cbn [nb ne bb be surf norm pos oov cats cat0].
+  rewrite h1, h3, l2, l4, Hs, Hn, h8, hp, (and_cats_eq num_fields_eq num_fields_kat g g' H). repeat split.
+Qed.
+
+(* C11_rewrite_reads_only, JoinKatakanaOov: ranges, surface, OOV flag and the character classes are all it reads *)
+Theorem join_katakana_reads_only : forall ml op p q, Forall2 kat_fields_eq p q ->
+  ores_rel kat_fields_eq (join_katakana ml op p) (join_katakana ml op q).
+Proof.
+  intros ml op p q H.
+  apply (join_katakana_rel kat_fields_eq (fun a b E => E) (kat_fields_refl dnode) merged_oov_kat ml op p q H).
+Qed.
+
+(* ... JoinNumeric additionally the normalised form and the part-of-speech id; whole chains preserve that agreement *)
+Theorem run_plugins_reads_only : forall pls p q, Forall2 num_fields_eq p q ->
+  ores_rel num_fields_eq (run_plugins pls p) (run_plugins pls q).
+Proof.
+  intros pls p q H.
+  apply (run_plugins_rel num_fields_eq num_fields_kat (num_fields_refl dnode) merged_oov_num
+           (fun a b E => let '(conj _ r) := E in r) merged_numeric_num pls p q H).
+Qed.
+
+(* ==================================================================================================================
+   Part 2: what LexiconSet::get_word_info_subset guarantees to the later stages, for every loaded subset *)
+From SudachiVerif Require Import Model.Codec Model.SubsetPipeline Proofs.CodecProofs Proofs.CodecLexSetProofs.
+From SudachiVerif Require Proofs.CodecResolveLexProofs.
+Open Scope N_scope.
+
+Lemma parse_fields_cons : forall r rs fl info bs,
+  parse_fields (r :: rs) fl info bs =
+  if fl =? 0 then Some info
+  else match rf_skip r with
+       | Some skip =>
+           if N.testbit fl (rf_bit r) then
+             match rf_parse r bs with
+             | Some (v, next) => parse_fields rs (N.clearbit fl (rf_bit r)) (set_field (rf_fid r) v info) next
+             | None => None
+             end
+           else match skip bs with
+                | Some next => parse_fields rs fl info next
+                | None => None
+                end
+       | None =>
+           match rf_parse r bs with
+           | Some (v, next) => parse_fields rs (N.clearbit fl (rf_bit r)) (set_field (rf_fid r) v info) next
+           | None => None
+           end
+       end.
+Proof. reflexivity. Qed.
+
+(* a light field right behind a heavy first field is loaded whenever some later flag is requested *)
+Lemma light_after_heavy : forall r0 r1 rest fl i0 bs i sk k v next v1 next1,
+  rf_skip r0 = Some sk -> rf_skip r1 = None ->
+  (sk bs = Some next) ->
+  N.testbit fl k = true -> k <> rf_bit r0 ->
+  ~ In (rf_fid r1) (map rf_fid rest) ->
+  rf_parse r0 bs = Some (v, next) -> rf_parse r1 next = Some (v1, next1) ->
+  parse_fields (r0 :: r1 :: rest) fl i0 bs = Some i -> i (rf_fid r1) = v1.
+Proof.
+  intros r0 r1 rest fl i0 bs i sk k v next v1 next1 Hs0 Hs1 Hsk Hk Hne Hnin Hp0 Hp1 H.
+  assert (Hfl : fl <> 0) by (intros ->; rewrite N.bits_0 in Hk; discriminate).
+  assert (Hstep : forall fl' i', fl' <> 0 -> parse_fields (r1 :: rest) fl' i' next = Some i -> i (rf_fid r1) = v1).
+  { intros fl' i' Hfl' E. rewrite (parse_step_light r1 rest fl' i' next v1 next1 Hfl' Hs1 Hp1) in E.
+    rewrite (parse_fields_frame _ _ _ _ _ E _ Hnin). apply set_field_same. }
+  rewrite parse_fields_cons in H. destruct (fl =? 0) eqn:E0; [apply N.eqb_eq in E0; contradiction|].
+  rewrite Hs0 in H. destruct (N.testbit fl (rf_bit r0)) eqn:Et.
+  - rewrite Hp0 in H. apply (Hstep (N.clearbit fl (rf_bit r0)) (set_field (rf_fid r0) v i0)); [|exact H].
+    intros Ez. assert (N.testbit (N.clearbit fl (rf_bit r0)) k = true) by (rewrite N.clearbit_neq; [exact Hk|congruence]).
+    rewrite Ez, N.bits_0 in H0. discriminate.
+  - rewrite Hsk in H. apply (Hstep fl i0 Hfl H).
+Qed.
+
+Definition rs_surface : rfield := mkRF F_surface 0 (fun bs => option_map (fun p => (VText (fst p), snd p)) (read_string bs)) (Some skip_string).
+Definition rs_hwlen : rfield := mkRF F_hwlen 1 (fun bs => option_map (fun p => (VNum (fst p), snd p)) (read_len bs)) None.
+Definition rs_tail : list rfield := skipn 2 explicit_rs.
+Lemma explicit_rs_split : explicit_rs = rs_surface :: rs_hwlen :: rs_tail.
+Proof. reflexivity. Qed.
+Lemma hwlen_not_in_tail : ~ In F_hwlen (map rf_fid rs_tail).
+Proof. cbn. intros K. repeat (destruct K as [K|K]; [discriminate|]). exact K. Qed.
+
+Lemma parse_hwlen_loaded : reader_facts_ok -> forall L bs iA iS,
+  parse ALL bs = Some iA -> parse L bs = Some iS -> (N.testbit L 6 || N.testbit L 7) = true -> iS F_hwlen = iA F_hwlen.
+Proof.
+  intros HR L bs iA iS HA HS HL. unfold parse in HA, HS. rewrite (reader_is_explicit HR), explicit_rs_split in HA, HS.
+  (* the full load parsed the surface and the length *)
+  assert (HA' := HA). rewrite parse_fields_cons in HA'. change (ALL =? 0) with false in HA'.
+  change (rf_skip rs_surface) with (Some skip_string) in HA'. change (N.testbit ALL (rf_bit rs_surface)) with true in HA'. cbv iota in HA'.
+  destruct (rf_parse rs_surface bs) as [[v next]|] eqn:Hp0; [|discriminate].
+  rewrite parse_fields_cons in HA'. change (N.clearbit ALL (rf_bit rs_surface) =? 0) with false in HA'.
+  change (rf_skip rs_hwlen) with (@None (bytes -> option bytes)) in HA'. cbv iota in HA'.
+  destruct (rf_parse rs_hwlen next) as [[v1 next1]|] eqn:Hp1; [|discriminate]. clear HA'.
+  assert (Hsk : skip_string bs = Some next).
+  { unfold rs_surface in Hp0. cbn [rf_parse] in Hp0. destruct (read_string bs) as [[s r]|] eqn:E; [|discriminate].
+    cbn in Hp0. inversion Hp0; subst. eapply skip_string_width. exact E. }
+  assert (EA : iA F_hwlen = v1).
+  { apply (light_after_heavy rs_surface rs_hwlen rs_tail ALL default_info bs iA skip_string 6 v next v1 next1);
+      try reflexivity; try assumption; try discriminate. exact hwlen_not_in_tail. }
+  assert (ES : iS F_hwlen = v1).
+  { apply orb_true_iff in HL. destruct HL as [H6|H7].
+    - apply (light_after_heavy rs_surface rs_hwlen rs_tail L default_info bs iS skip_string 6 v next v1 next1);
+        try reflexivity; try assumption; try discriminate. exact hwlen_not_in_tail.
+    - apply (light_after_heavy rs_surface rs_hwlen rs_tail L default_info bs iS skip_string 7 v next v1 next1);
+        try reflexivity; try assumption; try discriminate. exact hwlen_not_in_tail. }
+  congruence.
+Qed.
+
+(* a split list that is not requested stays empty *)
+Lemma parse_unrequested_split : reader_facts_ok -> forall fl bs i, parse fl bs = Some i ->
+  (N.testbit fl 6 = false -> i F_a = VArr nil) /\ (N.testbit fl 7 = false -> i F_b = VArr nil).
+Proof.
+  intros HR fl bs i H. unfold parse in H. rewrite (reader_is_explicit HR) in H. split; intros Ht.
+  - change (VArr nil) with (default_info F_a). apply (parse_fields_unrequested _ explicit_nodup_bits _ _ _ _ H).
+    intros r Hin Heq. unfold explicit_rs in Hin. cbn [In] in Hin.
+    repeat (destruct Hin as [Hin|Hin]; [subst r; first [discriminate Heq | split; [discriminate|exact Ht]]|]). contradiction.
+  - change (VArr nil) with (default_info F_b). apply (parse_fields_unrequested _ explicit_nodup_bits _ _ _ _ H).
+    intros r Hin Heq. unfold explicit_rs in Hin. cbn [In] in Hin.
+    repeat (destruct Hin as [Hin|Hin]; [subst r; first [discriminate Heq | split; [discriminate|exact Ht]]|]). contradiction.
+Qed.
+
+(* the contract of get_word_info_subset the later stages rely on *)
+Definition getinfo_ok (getinfo : N -> N -> option winfo) : Prop :=
+  forall L w iA, subset_of L ALL -> getinfo ALL w = Some iA ->
+  exists iS, getinfo L w = Some iS /\
+    (forall f, f <> F_dicform -> N.testbit L (bit_of_fid f) = true -> iS f = iA f) /\
+    ((N.testbit L 6 || N.testbit L 7) = true -> iS F_hwlen = iA F_hwlen) /\
+    (N.testbit L 6 = false -> iS F_a = VArr nil) /\ (N.testbit L 7 = false -> iS F_b = VArr nil).
+
+(* ... is met by the model of LexiconSet::get_word_info_subset over any lexicon whose entries parse *)
+Theorem lexset_getinfo_ok : reader_facts_ok -> forall lx d n o, lex_ok lx ->
+  getinfo_ok (fun L w => lexset_get lx true d n o w L).
+Proof.
+  intros HR lx d n o Hlex L w iA Hsub HA. unfold lexset_get in *.
+  destruct (get_word_info lx true w ALL) as [jA|] eqn:EA; [|discriminate]. cbn [option_map] in HA. inversion HA; subst iA; clear HA.
+  assert (Hd : deps_loaded L A_surface -> True) by trivial.
+  (* existence under L: through the accessor theorem for a trivially loaded accessor is not available for every L (the
+     surface may be missing); go through the parse instead *)
+  destruct (CodecResolveLexProofs.get_word_info_raw _ _ _ _ EA) as (bs & wiA & Hb & HpA & HrawA).
+  destruct (parse_subset_gen HR ALL L bs wiA Hsub HpA) as (wiS & HpS & Hag & HdS & HdA).
+  (* the consultation of the dictionary form succeeds under L as well *)
+  assert (HS : exists jS, get_word_info lx true w L = Some jS /\ forall f, f <> F_dicform -> jS f = wiS f).
+  { rewrite get_word_info_consult, Hb. cbn [SYN_BIT]. rewrite HpS. rewrite consult_eq.
+    rewrite get_word_info_consult, Hb in EA. rewrite HpA, consult_eq in EA.
+    destruct (consult_val lx w (as_int (wiA F_dfwi))) as [oA|] eqn:EcA; [|discriminate].
+    assert (Hc : exists oS, consult_val lx w (as_int (wiS F_dfwi)) = Some oS).
+    { destruct (Hag F_dfwi ltac:(discriminate)) as [_ [Hsame|Hdef]].
+      - rewrite Hsame. eauto.
+      - rewrite Hdef. cbn [default_info as_int]. unfold consult_val.
+        destruct ((0 <=? 0)%Z && negb (0 =? Z.of_N w)%Z); [|eauto].
+        change (Z.to_N 0) with 0. rewrite lex_get_nth in Hb |- *. change (N.to_nat 0) with O.
+        destruct lx as [|bs0 lx']; [destruct (N.to_nat w); discriminate|]. cbn [nth_error].
+        destruct (parse ALL bs0) as [i0|] eqn:E0; [|exfalso; apply (Hlex bs0 (or_introl eq_refl)); exact E0].
+        destruct (parse_subset_gen HR _ _ _ _ subset_one_all E0) as (inner & E1 & _). rewrite E1. eauto. }
+    destruct Hc as (oS & EcS). rewrite EcS. cbn [option_map]. eexists. split; [reflexivity|].
+    intros f Hf. destruct oS; cbn [with_dic]; [apply set_field_other; exact Hf|reflexivity]. }
+  destruct HS as (jS & ES & HrawS). rewrite ES. cbn [option_map]. eexists. split; [reflexivity|].
+  assert (Hparse_a : forall fl i, parse fl bs = Some i -> True) by trivial.
+  split; [|split; [|split]].
+  - intros f Hf Ht. rewrite !lexset_fix_field.
+    assert (E : jS f = jA f) by (rewrite HrawS, HrawA by exact Hf; apply Hag; assumption).
+    destruct f; try contradiction; cbn [fix_field bit_of_fid] in *; rewrite ?Ht, ?E;
+      change (N.testbit ALL 2) with true; change (N.testbit ALL 6) with true; change (N.testbit ALL 7) with true;
+      change (N.testbit ALL 8) with true; reflexivity.
+  - intros Ht. rewrite !lexset_fix_field. cbn [fix_field]. rewrite HrawS, HrawA by discriminate.
+    apply (parse_hwlen_loaded HR L bs wiA wiS HpA HpS Ht).
+  - intros Ht. rewrite lexset_fix_field. cbn [fix_field]. rewrite Ht. rewrite HrawS by discriminate.
+    apply (proj1 (parse_unrequested_split HR L bs wiS HpS) Ht).
+  - intros Ht. rewrite lexset_fix_field. cbn [fix_field]. rewrite Ht. rewrite HrawS by discriminate.
+    apply (proj2 (parse_unrequested_split HR L bs wiS HpS) Ht).
+Qed.
